@@ -358,6 +358,9 @@ def _apply_macros(body_lines, macros) -> List[str]:
     if len(body_lines) == 0:
         return []
     body = "\n".join(body_lines)
+    # Substitute longer keys first, such that a key which is a prefix of another
+    # key (e.g. 'q' and 'q2') does not capture the occurrences of the longer one.
+    macros = sorted(macros, key=lambda macro: len(macro[0]), reverse=True)
     for macro_key, macro_value in macros:
         macro_value = macro_value.strip(Symbols.PREAMBLE_DEFINE_BRACKETS)
         body = body.replace(f"{Symbols.MACRO_START}{macro_key}", macro_value)
